@@ -8,10 +8,11 @@ enum { A_CALLBACK_AWAIT, A_CALLBACK_AWAIT_ALLOC, A_MAKE_PROMISE, A_MAKE_PROMISE_
        A_CALL_FN_AWAITER, A_CONV_VOID_SOURCE, A_CONV_FREE_CTX, A_COUNT };
 enum { O_VALUE, O_EXC, O_DROP };
 enum { T_BEFORE, T_LATER_SAME_THREAD, T_OTHER_THREAD };
-struct Prog { uint8_t adapter, outcome, timing, conv_throws, yields; };
+struct Prog { uint8_t adapter, outcome, timing, conv_throws, yields; uint8_t rearm = 0; };   // rearm (call_fn_future_awaiter): the handler starts a second operation on the same awaiter
 
 inline Prog decode(hz::Reader &r) {
     Prog p; p.adapter = (uint8_t)r.mod(A_COUNT); p.outcome = (uint8_t)r.mod(3); p.timing = (uint8_t)r.mod(3); p.conv_throws = (uint8_t)(r.mod(4) == 0); p.yields = (uint8_t)r.mod(4);
+    p.rearm = (uint8_t)(r.mod(4) != 0 && p.adapter == A_CALL_FN_AWAITER);
     return p;
 }
 inline std::string describe(const Prog &p) {
@@ -20,6 +21,7 @@ inline std::string describe(const Prog &p) {
     static const char *on[] = {"value", "exception", "drop"};
     static const char *tn[] = {"resolved before registration", "resolved later on the same thread", "resolved concurrently on another thread"};
     hz::Desc d; d << an[p.adapter] << " x " << on[p.outcome] << " x " << tn[p.timing] << (p.conv_throws ? " (converter throws)" : "") << ", yield*" << (unsigned)p.yields;
+    if (p.rearm) d << "; the completion handler re-arms the awaiter with a second operation (resolved with a value the same way) and keeps working for a while";
     return d.s;
 }
 
@@ -34,6 +36,9 @@ struct World {
     std::atomic<int> promise_available{0};
     std::atomic<int> done{0};
     int calls = 0; int code = -100;
+    // second operation started from inside the first completion (re-armed call_fn_future_awaiter)
+    cocls::promise<int> kept2; std::atomic<int> promise2_available{0};
+    int calls2 = 0; int code2 = -100; std::function<void()> rearm_fn;
     bool conv_throws = false;
 
     template<class F> static int guarded(F &&fn) {
@@ -68,7 +73,23 @@ struct World {
     int conv_member(int &src) { if (conv_throws) throw val::TestExc(9); return src + 1; }
     cocls::suspend_point<void> conv_passing(int &src, cocls::promise<int> &prom) { if (conv_throws) throw val::TestExc(9); return prom(src + 1); }
     int conv_void() { if (conv_throws) throw val::TestExc(9); return 43; }
-    cocls::suspend_point<void> on_done(cocls::future<int> &f) noexcept { fired(guarded([&] { return f.value(); })); return {}; }
+    cocls::future<int> source2() {
+        return cocls::future<int>([this](cocls::promise<int> pr) {
+            if (p.timing == T_BEFORE) pr(84);
+            else { kept2 = std::move(pr); promise2_available.store(1, std::memory_order_release); }
+        });
+    }
+    cocls::suspend_point<void> on_done(cocls::future<int> &f) noexcept {
+        int c = guarded([&] { return f.value(); });
+        if (p.rearm && calls == 0) {
+            fired(c);                    // the first operation's outcome has been consumed; now start the next one
+            rearm_fn();
+            hz::upoints(p.yields);       // still inside the first completion while the second operation may complete elsewhere
+            return {};
+        }
+        if (p.rearm) { calls2++; code2 = c; hz::upoints(1); int again = guarded([&] { return f.value(); }); if (again != c) code2 = -7; return {}; }
+        fired(c); return {};
+    }
 };
 inline int conv_free(int &src) { return src + 1; }
 inline int conv_free_ctx(int &src, World *w) { if (w->conv_throws) throw val::TestExc(9); return src + 1; }
@@ -89,6 +110,13 @@ inline void run(hz::Reader &r) {
             hz::upoints(p.yields);
             if (p.adapter == A_CONV_VOID_SOURCE) w.resolve_void(w.vkept); else w.resolve_int(w.kept);
         });
+        // the second operation is completed by a thread of its own, so that its completion can overlap the tail of the first one
+        std::thread resolver2;
+        if (p.rearm && p.timing != T_BEFORE) resolver2 = std::thread([&w, &p] {
+            while (!w.promise2_available.load(std::memory_order_acquire)) vrt::yield();
+            hz::upoints(p.yields & 1);
+            w.kept2(84);
+        });
         // objects that must outlive the completion
         cocls::future_conv<&World::conv_member> cv_member(&w);
         cocls::future_conv<&conv_free> cv_free;
@@ -98,6 +126,7 @@ inline void run(hz::Reader &r) {
         cocls::call_fn_future_awaiter<&World::on_done> cfa(w);
         std::unique_ptr<cocls::future<int>> out;
         World *pw = &w;
+        w.rearm_fn = [pw, &cfa] { cfa << [pw] { return pw->source2(); }; };
         auto cb = [pw](cocls::await_result<int> res) { pw->fired(World::guarded([&] { return res.get(); })); };
         switch (p.adapter) {
             case A_CALLBACK_AWAIT: cocls::callback_await<cocls::future<int>>(cb, [pw] { return pw->source(); }); break;
@@ -123,6 +152,7 @@ inline void run(hz::Reader &r) {
             if (p.adapter == A_CONV_VOID_SOURCE) w.resolve_void(w.vkept); else w.resolve_int(w.kept);
         }
         if (resolver.joinable()) resolver.join();
+        if (resolver2.joinable()) resolver2.join();
         // ---- oracle ----
         if (out) {
             HZ_CHECK(out->ready(), "converter's outer future is still pending after the source was resolved");
@@ -133,6 +163,10 @@ inline void run(hz::Reader &r) {
         } else {
             HZ_CHECK(w.calls == 1, "completion ran %d times (exactly once expected)", w.calls);
             HZ_CHECK(w.code == expect, "completion saw %d, the awaited operation produced %d", w.code, expect);
+            if (p.rearm) {
+                HZ_CHECK(w.calls2 == 1, "the completion of the second operation (awaiter re-armed from inside the first completion) ran %d times", w.calls2);
+                HZ_CHECK(w.code2 == 84, "the completion of the second operation saw %d, that operation produced 84 (-1 broken promise, -7 result changed while the handler was looking at it)", w.code2);
+            }
         }
         if (p.adapter == A_CALLBACK_AWAIT_ALLOC || p.adapter == A_MAKE_PROMISE_STORAGE) {
             HZ_CHECK(hz::slot_get(30) == 1, "helper block was allocated %ld times from the supplied storage", hz::slot_get(30));
@@ -149,7 +183,7 @@ static const char *const counter_names[] = {"c0"};
 
 namespace hz {
 static const Info I = {
-    "C18", 1, 8, 100000, true, true,
+    "C18", 1, 10, 100000, true, true,
     "rapidcheck generates (program, schedule, faults): adapter in {callback_await, callback_await_alloc with a tracking storage, make_promise(fn), make_promise(fn, storage), discard, future_conv (member / free / free+context / promise-passing / void-source forms, "
     "converter optionally throwing), call_fn_future_awaiter} x outcome {value, exception, drop} x timing {resolved before registration, later on the same thread, concurrently on another thread of the virtual runtime}. "
     "Oracle: the completion ran exactly once with exactly that outcome (value / same exception / broken promise), converters deliver value+1 or the source's or the converter's exception to the outer future, the helper block of the supplied storage is "
